@@ -195,3 +195,84 @@ def _binop(self, ex, st, op, a, b, node):
 
 
 Lib.binop = _binop
+
+
+# ------------------------------------------------------------------------------------------------------------
+# A string viewed as its character sequence (used where code does index arithmetic on strings):
+#   chars(s) : list[Char]   - a function of the string; literals get their concrete characters
+from .types import TAbs as _TAbs, TOpt as _TOpt  # noqa: E402
+from .lib import Lib as _Lib  # noqa: E402
+from . import engine as _engine  # noqa: E402
+
+CHAR = _TAbs("Char")
+LCHAR = TSeq(CHAR)
+
+
+def to_chars(ex, st, sv):
+    """STR (or a known literal) -> list[Char]"""
+    f = ex.uf("str_chars", STR.sort(), LCHAR.sort())
+    r = SV(LCHAR, f(sv.z))
+    key = ("str-chars", r.z.get_id())
+    if key not in st.seen:
+        st.seen.add(key)
+        ex.assume(st, LCHAR.len(r.z) >= 0)
+        lit = [k for k, v in ex.strlits.items() if v.get_id() == sv.z.get_id()]
+        if lit:
+            text = lit[0]
+            ex.assume(st, LCHAR.len(r.z) == len(text))
+            code = ex.uf("chr_code", CHAR.sort(), z3.IntSort())
+            for i, ch in enumerate(text):
+                c = z3.Const("chr_%d" % ord(ch), CHAR.sort())
+                ex.assume(st, LCHAR.arr(r.z)[i] == c)
+                ex.assume(st, code(c) == ord(ch))        # different literal characters are different values
+    ex.used_lib.add("a string and its character sequence are the same value (chars(s)); the characters of a "
+                    "literal are the literal's")
+    return r
+
+
+def b_chars(self, ex, st, node):
+    a = ex.ev(st, node.args[0])
+    if isinstance(a.t, _TOpt) and a.t.inner == STR:
+        a = SV(STR, a.t.val(a.z))
+    if a.t == STR:
+        return to_chars(ex, st, a)
+    if isinstance(a.t, TSeq) and a.t.elem.key() == "Char":
+        return a
+    raise Unsupported("chars(%s)" % a.t)
+
+
+_Lib.b_chars = b_chars
+
+_orig_binop_chars = _engine.Exec.binop
+
+
+def _binop_chars(self, st, op, a, b, node=None):
+    if isinstance(op, ast.Add):
+        ac = isinstance(a.t, TSeq) and a.t.elem.key() == "Char"
+        bc = isinstance(b.t, TSeq) and b.t.elem.key() == "Char"
+        if ac and b.t == STR:
+            b = to_chars(self, st, b)
+        elif bc and a.t == STR:
+            a = to_chars(self, st, a)
+    return _orig_binop_chars(self, st, op, a, b, node)
+
+
+_engine.Exec.binop = _binop_chars
+
+_orig_coerce_decl_chars = _engine.Exec.coerce_decl
+
+
+def _coerce_decl_chars(self, st, val, t):
+    if isinstance(t, TSeq) and t.elem.key() == "Char":
+        if isinstance(val.t, _TOpt) and val.t.inner == STR:
+            # None where a string is needed: the TypeError of the first string operation is raised here
+            none = val.t.is_none(val.z)
+            g = z3.And(*(st.guards + [none])) if st.guards else none
+            st.pending_exc.append((g, "TypeError"))
+            val = SV(STR, val.t.val(val.z))
+        if val.t == STR:
+            return to_chars(self, st, val)
+    return _orig_coerce_decl_chars(self, st, val, t)
+
+
+_engine.Exec.coerce_decl = _coerce_decl_chars
